@@ -85,6 +85,7 @@ deriving DecidableEq, Repr, Hashable
 inductive Obs where
   | inv (t : Nat)                       -- `inv t resolve`
   | ret (t v : Nat) (e : Err)           -- `ret t resolve v e`
+  | panic (t : Nat)                     -- `ret t resolve panic`  (never produced by the model)
   | envCancel (t : Nat)                 -- `env cancel t`
   | cbin (f t : Nat)                    -- `cbin f t`   (function call number f entered, with caller t's context)
   | cbout (f : Nat) (o : Out)           -- `cbout f ok v` / `cbout f err e`
@@ -115,15 +116,14 @@ def Ev.obs : Ev → Option Obs
   | .quiesce B => some (.quiesce B)
   | _ => none
 
-def Obs.ev : Obs → Ev
-  | .inv t => .inv t
-  | .ret t v e => .ret t v e
-  | .envCancel t => .envCancel t
-  | .cbin f t => .cbin f t
-  | .cbout f o => .cbout f o
-  | .quiesce B => .quiesce B
-
-theorem Obs.ev_obs (o : Obs) : o.ev.obs = some o := by cases o <;> rfl
+def Obs.evs : Obs → List Ev
+  | .inv t => [.inv t]
+  | .ret t v e => [.ret t v e]
+  | .panic _ => []
+  | .envCancel t => [.envCancel t]
+  | .cbin f t => [.cbin f t]
+  | .cbout f o => [.cbout f o]
+  | .quiesce B => [.quiesce B]
 
 def internalCands (s : St) : List Ev :=
   ((List.range s.cs.length).flatMap fun t => [.chkCtx t, .lockCS t, .sel t .ctx, .sel t .res]) ++
@@ -247,7 +247,7 @@ def model : OLTS St Ev Obs where
   step := step
   obs := Ev.obs
   cands := internalCands
-  evsOf := fun _ o => [o.ev]
+  evsOf := fun _ o => o.evs
 
 /-! ## parsing -/
 
@@ -263,6 +263,7 @@ def parseNats : List String → Option (List Nat)
 
 def Obs.parse : List String → Option Obs
   | ["inv", t, "resolve"] => do pure (.inv (← t.toNat?))
+  | ["ret", t, "resolve", "panic"] => do pure (.panic (← t.toNat?))
   | "ret" :: t :: "resolve" :: v :: e => do pure (.ret (← t.toNat?) (← v.toNat?) (← Err.parse e))
   | ["env", "cancel", t] => do pure (.envCancel (← t.toNat?))
   | ["cbin", f, t] => do pure (.cbin (← f.toNat?) (← t.toNat?))
